@@ -74,6 +74,115 @@ class Adapter:
         """Entries of the mask on which the rules speak (None = all)."""
         return None
 
+    def describe(self, s: Any, env: Any, idx: Tuple[int, ...]) -> str:
+        """Human-readable context for a mask entry (used in violation details)."""
+        return ""
+
+    def base_action(self, s: Any, env: Any, legal: np.ndarray) -> Any:
+        """Joint action the *other* agents play while one agent's action is varied in a fork."""
+        if self.mask_mode == "per_agent" and self.noop is not None:
+            return [self.noop] * int(legal.shape[0])
+        a, _ = self.pick(legal, None, "first")
+        return a
+
+    # C04 (b): did step treat this action as an invalid move? True / False / None (cannot tell)
+    has_reaction = False
+
+    def reaction_invalid(self, ps: Any, action: Any, agent: Optional[int], s: Any, ts: Any, env: Any, cfg: Dict[str, Any]) -> Optional[bool]:
+        return None
+
+    # C05: deviation from the documented effect of an illegal action. ``illegal`` says which part of
+    # the action is illegal (per_agent: list of agent indices; otherwise True). None = conforms.
+    has_invalid_effect = False
+
+    def invalid_effect(self, ps: Any, action: Any, illegal: Any, s: Any, ts: Any, env: Any, cfg: Dict[str, Any]) -> Optional[Tuple[str, str]]:
+        return None
+
+    def illegal_actions(self, s: Any, env: Any, rng: np.random.Generator) -> Optional[Tuple[List[Any], List[Any], bool]]:
+        """Every in-spec action the independent rules forbid in ``s``: (actions, which, complete).
+        per_agent: one agent plays an illegal action while the others play ``base_action`` (which=[i]),
+        plus one joint action in which every agent that has an illegal action plays one."""
+        if not self.has_invalid_effect:
+            return None
+        b = self.legal_bounds(s, env)
+        if b is None:
+            return None
+        lo, hi = b
+        bad = ~hi
+        j = self.judged(s, env)
+        if j is not None:
+            bad = bad & j
+        if self.mask_mode == "per_agent":
+            base = self.base_action(s, env, lo)
+            acts, which = [], []
+            for i, a in np.argwhere(bad):
+                joint = list(base)
+                joint[int(i)] = int(a)
+                acts.append(joint)
+                which.append([int(i)])
+            rows = np.flatnonzero(bad.any(axis=1))
+            if len(rows) > 1:
+                joint = list(base)
+                for i in rows:
+                    idx = np.flatnonzero(bad[i])
+                    joint[int(i)] = int(idx[int(rng.integers(0, len(idx)))])
+                acts.append(joint)
+                which.append([int(i) for i in rows])
+            return acts, which, True
+        idx = np.argwhere(bad)
+        complete = True
+        if len(idx) > 512:
+            sel = np.sort(rng.choice(len(idx), size=512, replace=False))
+            idx = idx[sel]
+            complete = False
+        if self.mask_mode == "flat":
+            return [int(i[0]) for i in idx], [True] * len(idx), complete
+        return [[int(v) for v in i] for i in idx], [True] * len(idx), complete
+
+    # C06: hard constraints of the partial solution, recomputed from raw arrays and the action history.
+    # hist = list of Rec (reset first); called after every legal step. None = feasible.
+    has_constraints = False
+
+    def constraints(self, hist: List[Any], env: Any, cfg: Dict[str, Any]) -> Optional[Tuple[str, str]]:
+        return None
+
+    # C07: physical consistency / conservation. ps/action are None for the reset state.
+    has_physical = False
+
+    def physical(self, ps: Any, action: Any, s: Any, ts: Any, env: Any, cfg: Dict[str, Any]) -> Optional[Tuple[str, str]]:
+        return None
+
+    # C08: documented objective recomputed from the final state (float64). Returns None when the
+    # objective is not defined for this ending (e.g. JobShop not completed), else the expected return.
+    has_objective = False
+
+    def objective(self, hist: List[Any], env: Any, cfg: Dict[str, Any]) -> Optional[float]:
+        return None
+
+    objective_without_end = False  # objective also defined when the run was cut before a LAST
+    sum_agents = False  # multi-agent reward vectors are summed before comparison
+
+    def sparse_twin(self, cfg: Dict[str, Any]) -> Optional[Dict[str, Any]]:
+        """Config of the same env with the other (sparse) reward function, for dense == sparse."""
+        return None
+
+    def twin_comparable(self, hist: List[Any], env: Any, cfg: Dict[str, Any]) -> bool:
+        """Whether dense and sparse returns are documented to agree for this episode ending."""
+        return True
+
+    # C09: independent transition model: predict successor fields / reward / done from (ps, action)
+    # and compare with what the env returned. None = agrees.
+    has_model = False
+
+    def model_step(self, ps: Any, action: Any, s: Any, ts: Any, env: Any, cfg: Dict[str, Any]) -> Optional[Tuple[str, str]]:
+        return None
+
+    # C12: recompute the observation from the state returned by the same call. None = faithful.
+    has_observer = False
+
+    def observe(self, s: Any, obs: Any, env: Any, cfg: Dict[str, Any]) -> Optional[Tuple[str, str]]:
+        return None
+
     def end_cause(self, ps: Any, action: Any, s: Any, ts: Any, env: Any, cfg: Dict[str, Any]) -> Optional[str]:
         """C11: an episode ended before the time limit - name the documented cause that holds for this
         transition (independently of the env's own done flag), None if there is none, or "unmodelled"."""
@@ -122,6 +231,14 @@ class Adapter:
         if mode == "flat":
             return flat, forced
         return [int(i) for i in np.unravel_index(flat, mask.shape)], forced
+
+    def action_in_mask(self, action: Any, mask: np.ndarray) -> bool:
+        mask = np.asarray(mask).astype(bool)
+        if self.mask_mode == "flat":
+            return bool(mask[int(action)])
+        if self.mask_mode == "per_agent":
+            return all(bool(mask[i, int(a)]) for i, a in enumerate(action))
+        return bool(mask[tuple(int(a) for a in action)])
 
     def enumerate_actions(self, env: Any, mask_shape: Tuple[int, ...], base: Any, rng: np.random.Generator
                           ) -> Tuple[np.ndarray, List[Tuple[int, ...]], bool]:
